@@ -672,6 +672,14 @@ class InheritedSubscriber(RecordingSubscriber):
     per-use subclasses that only carry data)."""
 
 
+class FalsySubscriber(RecordingSubscriber):
+    """A subscriber object that is FALSY when handed over (a result collector whose len() is the number of results so far, a recorder
+    derived from list / dict): still a subscriber, every callback is due."""
+
+    def __len__(self):
+        return 0
+
+
 class _CallbackMixin:
     def on_queued(self, future, **kwargs):
         return RecordingSubscriber.on_queued(self, future, **kwargs)
